@@ -255,6 +255,12 @@ class SeqSym:
         self.name = name
 
 
+class SeqSet:
+    """set(save times): only sorted() brings it back to a sequence"""
+    def __init__(self, seq):
+        self.seq = seq
+
+
 class Opq:
     def __init__(self, name):
         self.name = name
@@ -603,7 +609,7 @@ class Driver:
             return [(s, s.env[node.id])]
         if node.id in ("np", "field", "math", "sys", "time"):
             return [(s, Opq("mod:" + node.id))]
-        if node.id in ("len", "min", "max", "print", "any", "all", "range", "zip", "isinstance", "float", "int", "abs", "hasattr", "list", "tuple", "sorted", "enumerate", "dict", "str", "repr", "callable"):
+        if node.id in ("len", "min", "max", "print", "any", "all", "range", "zip", "isinstance", "float", "int", "abs", "hasattr", "list", "tuple", "sorted", "enumerate", "dict", "str", "repr", "callable", "set", "frozenset", "round"):
             return [(s, Opq("builtin:" + node.id))]
         if node.id in func.module.assigns or node.id in func.module.functions or node.id in func.module.classes or node.id in func.module.from_imports:
             return [(s, Opq("global:" + node.id))]
@@ -1043,6 +1049,22 @@ class Driver:
             o = ListObj("results")
             s.heap["L%d" % id(o)] = o
             return [(s, o)]
+        if n == "builtin:round" and args and isinstance(args[0], Lin):
+            if args[0].is_const():
+                return [(s, args[0])] if len(args) == 1 or True else None
+            # a rounded quantity is another number (equal to its argument only for particular values)
+            return [(s, Lin.sym(s.fresh("rounded")))]
+        if n in ("builtin:list", "builtin:tuple", "builtin:sorted", "builtin:set", "builtin:frozenset") and len(args) == 1 and isinstance(args[0], SeqSym):
+            # a copy / the sorted / the de-duplicated save-time list: for the strictly increasing lists the statement
+            # quantifies over it is the same sequence (a set loses the order only for a later sorted(); a bare set is indexed
+            # nowhere), held in a new object
+            if n in ("builtin:set", "builtin:frozenset"):
+                return [(s, SeqSet(args[0]))]
+            return [(s, args[0])]
+        if n in ("builtin:sorted", "builtin:list", "builtin:tuple") and len(args) == 1 and isinstance(args[0], SeqSet):
+            if n != "builtin:sorted":
+                raise AnalysisError("%s:%d list(set(save times)): the order of the save times is lost" % (func.qualname, ln))
+            return [(s, args[0].seq)]
         if n in ("builtin:list", "builtin:tuple") and len(args) == 1:
             # a new list with the same elements: an untracked copy of an untracked container, opaque otherwise
             a = args[0]
@@ -1097,6 +1119,8 @@ class Driver:
             s.events.append(("call", name, ln))
             return [(s, None)]
         # inline
+        if f.opaque_decorators:
+            raise AnalysisError("%s is decorated with @%s: not modelled" % (f.qualname, ", @".join(f.opaque_decorators)))
         self.inline_depth += 1
         if self.inline_depth > 6:
             raise AnalysisError("inlining too deep")
